@@ -5,16 +5,17 @@ import "fmt"
 func C09(tier string) int {
 	h := Harness{File: "c09.go", Extra: []string{"lib_bondmachine.go"}, Pkg: "pkg/bondmachine"}
 	type p struct{ kind, words, T int }
-	fam := []p{{0, 2, 2}, {1, 2, 2}, {2, 2, 2}, {2, 2, 3}}
+	fam := []p{{0, 2, 2}, {1, 2, 2}, {2, 2, 2}, {2, 2, 3}, {3, 2, 4}}
 	if tier == "thorough" {
-		fam = []p{{0, 2, 2}, {0, 2, 3}, {0, 3, 3}, {1, 2, 2}, {1, 2, 3}, {1, 3, 3}, {2, 2, 2}, {2, 2, 4}, {2, 3, 4}, {2, 4, 4}}
+		fam = []p{{0, 2, 2}, {0, 2, 3}, {0, 3, 3}, {1, 2, 2}, {1, 2, 3}, {1, 3, 3}, {2, 2, 2}, {2, 2, 4}, {2, 3, 4}, {2, 4, 4}, {3, 2, 4}, {3, 3, 6}}
 	}
 	kinds := []string{"step-order independence (one VM, two unbonded processors, two worker orders)",
-		"non-interference inside one VM (P0 vs. arbitrary P1)", "non-interference between two simulations in one process"}
+		"non-interference inside one VM (P0 vs. arbitrary P1)", "non-interference between two simulations in one process",
+		"two simulations of one Bondmachine object with different per-opcode delay sets: each obeys its own"}
 	var cfgs []Config
 	for _, f := range fam {
 		cfgs = append(cfgs, Config{Name: fmt.Sprintf("kind=%d (%s) program_words=%d ticks=%d", f.kind, kinds[f.kind], f.words, f.T), Func: "zzC09",
-			Args: []Arg{I(f.kind), I(f.words), I(f.T)}})
+			Args: []Arg{I(f.kind), I(f.words), I(f.T)}, Setup: delayHooks})
 	}
 	sp := &Spec{
 		ID: "C09", Level: "model_checking", Tier: tier, Harness: h,
@@ -23,6 +24,7 @@ func C09(tier string) int {
 		Configs:  FilterConfigs(cfgs),
 		Assumptions: []string{
 			"narrowed claim: STATE ISOLATION only. Decided: (0) the result of VM.Step does not depend on the order in which the per-processor workers run (two orders of a run-until-block scheduler), (1) a processor's state does not depend on another, unbonded processor of the same VM, (2) a simulation's state does not depend on another simulation stepped in the same process - for all programs over {add,addp,cpy,dec,divp,inc,j,multp,nop,rset} of the stated size, all register values and ALL values of the hidden mutable state reachable from procbuilder.Allopcodes (found by walking the heap after init)",
+			"kind 3: per-opcode delay distributions are single-delay maps whose delay is a solver variable in 0..2; simbox.DelayDistribution.GetValue is stubbed by its contract (returns one of the delays of the distribution)",
 			"NOT decided: Go-scheduler interleavings finer than a processor step, GOMAXPROCS, the race detector's verdict, goroutine timing, simbox/delaydistr.go and bmnumbers/dynamical_type.go registries under concurrent callers; the dynamically created fixed-point/FXP/linear-quantiser opcodes (floating point, not encodable)",
 			"induction over ticks extends the bounded result provided the barrier in VM.Step is the only synchronisation (assumed)",
 		},
